@@ -466,11 +466,20 @@ func (c *SCIONClient) measureClockOffsetSCION(ctx context.Context, mtrcs *scionC
 					cRxTime = cRxTime0
 				}
 			}
-			if authKey != nil {
+			if c.Auth.Enabled {
 				authOpt, err := e2eLayer.FindOption(slayers.OptTypeAuthenticator)
 				if err == nil && len(authOpt.OptData) == scion.PacketAuthOptDataLen {
 					spi, algo := scion.PacketAuthOptMetadata(authOpt)
 					if spi == scion.PacketAuthSPIServer && algo == scion.PacketAuthAlgorithm {
+						if authKey == nil {
+							err = errInvalidPacketAuthenticator
+							if numRetries != maxNumRetries && deadlineIsSet && timebase.Now().Before(deadline) {
+								c.Log.LogAttrs(ctx, slog.LevelInfo, "failed to authenticate packet", slog.Any("error", err))
+								numRetries++
+								continue
+							}
+							return time.Time{}, 0, err
+						}
 						_, err = spao.ComputeAuthCMAC(
 							spao.MACInput{
 								Key:        authKey,
